@@ -195,7 +195,7 @@ func main() {
 	mcp, fwp := pkgs[1], pkgs[3]
 	mult := 1
 	if thorough {
-		mult = 30
+		mult = 25
 	}
 
 	// ---- corpus: witnesses of the defects found so far, and their neighbours ----
@@ -292,13 +292,13 @@ func main() {
 	// ---- every payload type: boundary, random in-range, out-of-range ----
 	for _, pk := range pkgs {
 		for _, g := range pk.gens {
-			for i := 0; i < 4*mult; i++ {
+			for i := 0; i < 8*mult; i++ {
 				streamCase(s, pk, g.up, []cmd{{g.cid, g.mk(r, boundary)}}, "boundary-"+pk.name)
 			}
-			for i := 0; i < 6*mult; i++ {
+			for i := 0; i < 16*mult; i++ {
 				streamCase(s, pk, g.up, []cmd{{g.cid, g.mk(r, inRange)}}, "in-range-"+pk.name)
 			}
-			for i := 0; i < 6*mult; i++ {
+			for i := 0; i < 12*mult; i++ {
 				streamCase(s, pk, g.up, []cmd{{g.cid, g.mk(r, outRange)}}, "out-of-range-"+pk.name)
 			}
 		}
@@ -307,14 +307,14 @@ func main() {
 	// ---- sequences ----
 	for _, pk := range pkgs {
 		for _, up := range []bool{false, true} {
-			for i := 0; i < 18*mult; i++ {
+			for i := 0; i < 42*mult; i++ {
 				streamCase(s, pk, up, wfStream(r, pk, up, 1+i%6, inRange), "sequence-"+pk.name+"-"+dirName(up))
 			}
-			for i := 0; i < 4*mult; i++ {
+			for i := 0; i < 10*mult; i++ {
 				streamCase(s, pk, up, wfStream(r, pk, up, 2+i%5, outRange), "sequence-out-of-range-"+pk.name)
 			}
 			// ill-formed: wrong direction / wrong CID for the payload / greedy payload in the middle
-			for i := 0; i < 4*mult; i++ {
+			for i := 0; i < 9*mult; i++ {
 				cs := wfStream(r, pk, up, 2+r.Intn(4), inRange)
 				j := r.Intn(len(cs))
 				switch r.Intn(3) {
@@ -344,10 +344,11 @@ func main() {
 	// ---- malformed / truncated byte strings into every decoder ----
 	for _, pk := range pkgs {
 		for _, up := range []bool{false, true} {
-			for i := 0; i < 6*mult; i++ {
+			for i := 0; i < 12*mult; i++ {
 				cs := wfStream(r, pk, up, 1+r.Intn(3), inRange)
-				enc, err := pk.marshal(cs)
-				if err != nil {
+				var enc []byte
+				err, pan, _ := call(func() error { var e error; enc, e = pk.marshal(cs); return e })
+				if err != nil || pan {
 					continue
 				}
 				// every prefix (quick: a few), into both decoders
@@ -366,7 +367,7 @@ func main() {
 				}
 			}
 			for _, g := range gensFor(pk, up) {
-				for i := 0; i < 2*mult; i++ {
+				for i := 0; i < 6*mult; i++ {
 					data := append([]byte{g.cid}, r.Bytes(r.Intn(34))...)
 					decodeCase(s, pk, up, i%2 == 0, data, "random-bytes-"+pk.name)
 				}
@@ -389,7 +390,7 @@ func main() {
 		keysCase(s, k, lorawan.DevAddr{0xff, 0xff, 0xff, 0xff})
 		// the vector of keys_test.go
 		keysCase(s, lorawan.AES128Key{1, 2, 3, 4, 5, 6, 7, 8, 1, 2, 3, 4, 5, 6, 7, 8}, lorawan.DevAddr{1, 2, 3, 4})
-		for i := 0; i < 16*mult; i++ {
+		for i := 0; i < 40*mult; i++ {
 			var key lorawan.AES128Key
 			copy(key[:], r.Bytes(16))
 			var a lorawan.DevAddr
